@@ -439,11 +439,16 @@ def check_reader_rejections(ctx, facts, rid="C07.6"):
     ctx.saw_body(b)
     F = common.short_fn(b.name)
     n = 0
-    for site, st in b.assigns():
+    # the function itself and the closures it (or a helper inlined into it) hands to combinators (`checked_add(..).map_or(false, |end| ..)`)
+    sites = []
+    for hb in [b] + list(facts.closures_of(b)):
+        for site, st in hb.assigns():
+            sites.append((hb, site, st))
+    for hb, site, st in sites:
         rv = st["rv"]
         if not (rv["k"] == "bin" and str(rv["op"]) in ("Lt", "Le", "Gt", "Ge", "Eq", "Ne")):
             continue
-        ea, eb = strip_refs(expr(b, rv["a"])), strip_refs(expr(b, rv["b"]))
+        ea, eb = strip_refs(expr(hb, rv["a"])), strip_refs(expr(hb, rv["b"]))
         sa, sb = show(ea, 8), show(eb, 8)
         ca, cb = fmtfeat.const_eval(ea), fmtfeat.const_eval(eb)
         cls = None
